@@ -19,6 +19,7 @@ use crate::types::*;
 
 pub fn fault_case_strategy(thorough: bool) -> BoxedStrategy<Case> {
     let mut p = gen::profile(4, thorough);
+    p.unwind_w = 0; // this runner raises its own panics
     p.max_ops = if thorough { 40 } else { 24 };
     p.leaks = true;
     p.reserve_overflow = false;
